@@ -7,6 +7,8 @@ import IrisVerif.Model.Grid
 import IrisVerif.Model.Dataslate
 import IrisVerif.Lemmas.DataboxFrame
 import IrisVerif.Lemmas.GridCodec
+import IrisVerif.Lemmas.GridRoundTrip
+import IrisVerif.Lemmas.SlateCompose
 
 namespace IrisVerif.C19
 open IrisVerif.Databox IrisVerif.Grid IrisVerif.Dataslate
@@ -14,20 +16,9 @@ open IrisVerif.Dates (Err R)
 
 /-! ### CSV grid codec
 
-Full statement (the `csv_roundtrip_partial_*` theorems below are its proved components: the block iterator on the first row
-of the grid actually exported, the column iterator on each block's own slice of the concatenated header rows, `trim` on the
-padded rows; what is missing is the same locality for the *data* rows through `zipRowsN` (date column and cell slices of
-`decodeBlock`), `setData` on consecutive periods, and `dictOfList` on distinct names -- covered by the exact correspondence
-run on real files only):
-
-  theorem csv_roundtrip (c : Codec V) (d : Bool) (db : Box (Ser V) V)
-      (hdate : ∀ f n, f ≠ .U → f ≠ .W → c.parseDate f (c.fmtDate f n) = some n ∧ c.fmtDate f n ≠ "")
-      (hcell : ∀ x, c.parseCell (c.fmtCell x) = x)
-      (hwf : WellFormedDatabox db) :      -- distinct names; GoodNames; rows of length nv; Trimmed or empty-with-U; freq ∈ blockOrder
-      importGrid c d (exportGrid c d db)
-        = .ok ((blockOrder.flatMap (withFreq (seriesOf db))).map
-                 (fun p => (p.1, if d then p.2 else { p.2 with desc := "" })))
--/
+The headline is `csv_roundtrip` (end of this section): `importGrid (exportGrid db) = ` the series of `db`, for every
+well-formed databox and every codec satisfying `CodecLaw`.  The theorems before it are its components, stated on their own
+because they hold more generally (any list of blocks, any selection of periods). -/
 
 /-- the block marks the exporter writes are recognised by the importer, with the right frequency; the cells the exporter
 writes between them (`*`, the empty cell) never end a block -/
@@ -71,12 +62,12 @@ variable {V : Type}
 
 /-- **The block iterator finds exactly the exported blocks**: frequency, date column and width, for any number of blocks,
 series and variants. -/
-theorem csv_roundtrip_partial_blocks (Bs : List (Block V)) (h : ∀ b ∈ Bs, GoodNames b.members) :
+theorem csv_blocks_recovered (Bs : List (Block V)) (h : ∀ b ∈ Bs, GoodNames b.members) :
     blockIterator (Bs.flatMap Block.nameRow) = rawOf 0 Bs := scan_export Bs h 0
 
 /-- **The column iterator recovers every series of a block**: its first column, its number of variants, its name and
 its description, for any number of series and variants. -/
-theorem csv_roundtrip_partial_columns (m : List (String × Ser V)) (h : GoodNames m) :
+theorem csv_columns_recovered (m : List (String × Ser V)) (h : GoodNames m) :
     columnIterator (m.flatMap (fun p => starCont p.1 p.2.nv) ++ [""]) (m.flatMap (fun p => starCont p.2.desc p.2.nv) ++ [""])
       = colsOf 0 m := by
   unfold columnIterator
@@ -98,7 +89,7 @@ theorem trim_of_trimmed {V : Type} (s : Ser V) (h : Trimmed s) : s.trim = s := b
 /-- **Padding to the block's span is undone by `trim()`**: a trimmed series exported with `a` NaN rows before and `b` NaN
 rows after it (the rows of a block start at the earliest and end at the latest series of its frequency) is read back
 with its own start and rows. -/
-theorem csv_roundtrip_partial_trim {V : Type} (s : Ser V) (h : Trimmed s) (a b : Nat) :
+theorem csv_trim_undoes_padding {V : Type} (s : Ser V) (h : Trimmed s) (a b : Nat) :
     Ser.trim ⟨s.freq, s.start - a, s.nv, List.replicate a (nanRow s.nv) ++ s.rows ++ List.replicate b (nanRow s.nv), s.desc⟩
       = s := by
   obtain ⟨⟨r, hr, h1⟩, ⟨l, hl, h2⟩⟩ := h
@@ -120,7 +111,7 @@ theorem csv_roundtrip_partial_trim {V : Type} (s : Ser V) (h : Trimmed s) (a b :
 
 /-- **On the grid actually exported** (the default export or any selection of frequencies and periods) the importer's block
 iterator, run on the grid's first row, finds exactly the exported blocks -/
-theorem csv_roundtrip_partial_grid_blocks (c : Codec V) (d : Bool) (fs : FSpan) (db : Box (Ser V) V)
+theorem csv_grid_blocks_recovered (c : Codec V) (d : Bool) (fs : FSpan) (db : Box (Ser V) V)
     (h : GoodNames (seriesOf db)) (hne : (exportBlocksWith fs (seriesOf db)).isEmpty = false) :
     ∃ nameRow rest, exportGridWith c d fs db = nameRow :: rest
       ∧ blockIterator nameRow = rawOf 0 (exportBlocksWith fs (seriesOf db)) := by
@@ -129,7 +120,7 @@ theorem csv_roundtrip_partial_grid_blocks (c : Codec V) (d : Bool) (fs : FSpan) 
 
 /-- **and the column iterator, run on a block's own slice of the concatenated header rows** (name row and description
 row of any list of blocks), recovers that block's series: first column, variants, name, description -/
-theorem csv_roundtrip_partial_grid_columns (B1 B2 : List (Block V)) (b : Block V)
+theorem csv_grid_columns_recovered (B1 B2 : List (Block V)) (b : Block V)
     (h : ∀ x ∈ B1 ++ b :: B2, GoodNames x.members) :
     columnIterator
         (sliceRow ⟨b.freq, (B1.flatMap Block.nameRow).length, b.width - 1⟩ ((B1 ++ b :: B2).flatMap Block.nameRow))
@@ -137,7 +128,126 @@ theorem csv_roundtrip_partial_grid_columns (B1 B2 : List (Block V)) (b : Block V
       = colsOf 0 b.members := by
   have hs := header_slices B1 B2 b h
   rw [hs.1, hs.2]
-  exact csv_roundtrip_partial_columns b.members (h b (by simp))
+  exact csv_columns_recovered b.members (h b (by simp))
+
+
+/-- **CSV round trip.** For every well-formed databox -- any number of series of any mix of frequencies (yearly … integer,
+and empty series), any number of variants, any starts, lengths and NaN patterns -- and every cell codec whose parsing inverts
+its printing, importing the exported grid returns exactly the series of the databox: their names (grouped by frequency in
+the order of the blocks, in databox order within a frequency), descriptions (when the description row is on; empty
+otherwise), frequency, start, number of variants and every cell (NaN mask and value tokens).  Scalars and lists are not
+exported (`nonseries_not_exported`). -/
+theorem csv_roundtrip (c : Codec V) (hc : CodecLaw c) (d : Bool) (db : Box (Ser V) V) (hwf : WellFormedDatabox db) :
+    importGrid c d (exportGrid c d db)
+      = .ok ((blockOrder.flatMap (withFreq (seriesOf db))).map (withDesc (descOf d))) := by
+  have hmem : (exportBlocksWith defaultFSpan (seriesOf db)).flatMap (·.members) = blockOrder.flatMap (withFreq (seriesOf db)) := by
+    rw [members_exportBlocksWith]
+    simp [defaultFSpan, List.flatMap_map]
+  unfold exportGrid exportGridWith
+  by_cases hB : (exportBlocksWith defaultFSpan (seriesOf db)).isEmpty = true
+  · simp only [hB, if_true]
+    rw [← hmem, List.isEmpty_iff.mp hB]
+    rfl
+  · simp only [hB, Bool.false_eq_true, if_false]
+    have hg := goodBlock_export db hwf
+    -- there is a data row
+    have hT : 1 ≤ totalRowsWith defaultFSpan (seriesOf db) := by
+      rcases hwf.hasData with h0 | ⟨p, hp, hpU⟩
+      · exfalso; apply hB
+        simp [exportBlocksWith, h0, withFreq]
+      · have hpm : p ∈ withFreq (seriesOf db) p.2.freq := List.mem_filter.mpr ⟨hp, by simp⟩
+        have hne : (withFreq (seriesOf db) p.2.freq).isEmpty = false := by
+          cases hq : withFreq (seriesOf db) p.2.freq with
+          | nil => rw [hq] at hpm; simp at hpm
+          | cons a t => rfl
+        have hx : (⟨p.2.freq, blockPeriods p.2.freq (withFreq (seriesOf db) p.2.freq), withFreq (seriesOf db) p.2.freq⟩ : Block V)
+            ∈ exportBlocksWith defaultFSpan (seriesOf db) := by
+          unfold exportBlocksWith
+          apply List.mem_filterMap.mpr
+          refine ⟨(p.2.freq, none), ?_, ?_⟩
+          · simp only [defaultFSpan, List.mem_map]
+            exact ⟨p.2.freq, hwf.freq p hp, rfl⟩
+          · simp [hne]
+        obtain ⟨hgb, hfit⟩ := hg _ hx
+        rcases hgb.shape with ⟨hU, _⟩ | ⟨_, _, lo, hi, hlh, hper, _⟩
+        · exact absurd hU hpU
+        · have : 1 ≤ (blockPeriods p.2.freq (withFreq (seriesOf db) p.2.freq)).length := by
+            simp only at hper
+            rw [hper, periodsOf_length]; omega
+          simp only at hfit
+          omega
+    have hnd : (keys ((exportBlocksWith defaultFSpan (seriesOf db)).flatMap (·.members))).Nodup := by
+      rw [hmem]
+      exact keys_grouped_nodup _ hwf.distinct blockOrder blockOrder_nodup
+    rw [import_of_blocks c hc d _ hT _ hg hnd, hmem]
+
+/-- consequences in plain terms: every series of the databox comes back under its name, unchanged (description as per the
+description row), and nothing else comes back -/
+theorem csv_roundtrip_mem (c : Codec V) (hc : CodecLaw c) (d : Bool) (db : Box (Ser V) V) (hwf : WellFormedDatabox db)
+    (q : String × Ser V) :
+    (∃ l, importGrid c d (exportGrid c d db) = .ok l ∧ (q ∈ l ↔ ∃ p ∈ seriesOf db, q = withDesc (descOf d) p)) := by
+  refine ⟨_, csv_roundtrip c hc d db hwf, ?_⟩
+  simp only [List.mem_map, List.mem_flatMap]
+  constructor
+  · rintro ⟨p, ⟨f, _, hp⟩, rfl⟩
+    exact ⟨p, (List.mem_filter.mp hp).1, rfl⟩
+  · rintro ⟨p, hp, rfl⟩
+    exact ⟨p, ⟨p.2.freq, hwf.freq p hp, List.mem_filter.mpr ⟨hp, by simp⟩⟩, rfl⟩
+
+
+/-! non-vacuity: a codec satisfying `CodecLaw` (periods in unary, cells as non-empty tokens) and a well-formed databox
+(two frequencies, different starts and lengths, two variants, NaNs inside, an empty series, a scalar) -/
+
+def unaryCodec : Codec Tok where
+  fmtDate := fun _ n => String.ofList (List.replicate ((if 0 ≤ n then 2 * n.toNat else 2 * (-n).toNat - 1) + 1) 'x')
+  parseDate := fun _ s => let k := s.length - 1; some (if k % 2 = 0 then ((k / 2 : Nat) : Int) else -(((k + 1) / 2 : Nat) : Int))
+  fmtCell := fun x => match x with | none => "" | some t => t.val
+  parseCell := fun s => if h : s = "" then none else some ⟨s, h⟩
+
+example : CodecLaw unaryCodec where
+  date := by
+    intro f n _ _
+    constructor
+    · simp only [unaryCodec, String.length_ofList, List.length_replicate]
+      congr 1
+      split <;> split <;> omega
+    · intro h
+      have := congrArg String.length h
+      simp [unaryCodec] at this
+  cell := by
+    intro x
+    cases x with
+    | none => simp [unaryCodec]
+    | some t => simp [unaryCodec, t.property]
+
+example : WellFormedDatabox (V := Nat)
+    [("gdp, real", .ser ⟨.Q, 8080, 2, [[some 1, none], [none, none], [none, some 2]], "a \"desc\", *"⟩),
+     ("k", .scalar (some 5)),
+     ("x y", .ser ⟨.Q, 8078, 1, [[some 3]], "*"⟩),
+     ("m", .ser ⟨.M, 24240, 1, [[some 7], [some 8]], ""⟩),
+     ("e", .ser ⟨.U, 0, 2, [], "empty"⟩)] where
+  distinct := by decide
+  names := by
+    intro p hp
+    simp only [seriesOf, List.filterMap_cons, List.filterMap_nil, List.mem_cons, List.mem_nil_iff, or_false] at hp
+    rcases hp with rfl | rfl | rfl | rfl <;> decide
+  rows := by
+    intro p hp
+    simp only [seriesOf, List.filterMap_cons, List.filterMap_nil, List.mem_cons, List.mem_nil_iff, or_false] at hp
+    rcases hp with rfl | rfl | rfl | rfl <;> decide
+  freq := by
+    intro p hp
+    simp only [seriesOf, List.filterMap_cons, List.filterMap_nil, List.mem_cons, List.mem_nil_iff, or_false] at hp
+    rcases hp with rfl | rfl | rfl | rfl <;> decide
+  shape := by
+    intro p hp
+    simp only [seriesOf, List.filterMap_cons, List.filterMap_nil, List.mem_cons, List.mem_nil_iff, or_false] at hp
+    rcases hp with rfl | rfl | rfl | rfl
+    · exact Or.inr ⟨by decide, ⟨_, rfl, by decide⟩, ⟨_, rfl, by decide⟩⟩
+    · exact Or.inr ⟨by decide, ⟨_, rfl, by decide⟩, ⟨_, rfl, by decide⟩⟩
+    · exact Or.inr ⟨by decide, ⟨_, rfl, by decide⟩, ⟨_, rfl, by decide⟩⟩
+    · exact Or.inl ⟨rfl, rfl, rfl⟩
+  hasData := Or.inr ⟨("m", ⟨.M, 24240, 1, [[some 7], [some 8]], ""⟩), by simp [seriesOf], by decide⟩
 
 /-- the format reserves exactly this much of a name: non-empty, not the continuation mark, not starting with the block mark -/
 example : GoodNames [("gdp, real", (⟨.Q, 8080, 2, [[some 1, none], [none, some 2]], "a \"desc\", *"⟩ : Ser Nat)), ("x y", ⟨.Q, 8079, 1, [[some 3]], "*"⟩)] := by
@@ -226,6 +336,105 @@ theorem exhaustThenLast_spec {α : Type} (l : List α) (hl : l ≠ []) (v : Nat)
       rw [List.getLast_eq_getElem]
       simp
 
+
+
+/-- **Databox → dataslate → databox, cell by cell.** For distinct selected names, `to_databox(trim=False)` of the dataslate built
+by `from_databox` binds every selected name to a series of the slate's frequency starting at the first period of the span,
+with one row per period of the span and one column per variant, whose cell (period `i`, variant `v`) is cell `i` of the record
+`recordOf` computes for that name and variant (the input row, clipped, fallback on NaN cells, overwrite on all cells). -/
+theorem slate_roundtrip_cells (db : Box (Ser V) V) (names : List String) (f : BFreq) (start : Int) (len nvar : Nat)
+    (fb ow : Box (Ser V) V) (clip : Bool) (base : List Nat) (sl : Slate V) (out : List (String × Ser V))
+    (h : fromDatabox db (some names) f start len nvar fb ow clip base = .ok sl) (hout : toDatabox sl false = .ok out)
+    (hnd : names.Nodup) (n : String) (hn : n ∈ names) :
+    ∃ s, lookup out n = some s ∧ s.freq = f ∧ s.start = start ∧ s.nv = nvar ∧ s.rows.length = len ∧
+      ∀ v, v < nvar → ∀ i, i < len → ∃ rec, recordOf db f start len fb ow clip base v n = .ok rec
+        ∧ (s.rows[i]?.bind (·[v]?)) = some ((rec[i]?).getD none) := by
+  -- the variants of the slate
+  unfold fromDatabox at h
+  simp only [Option.getD_some, bind, Except.bind] at h
+  cases hvs : (List.range nvar).mapM (fromDataboxVariant db names f start len fb ow clip base) with
+  | error e => simp [hvs] at h
+  | ok vs =>
+    simp only [hvs, pure, Except.pure, Except.ok.injEq] at h
+    subst h
+    obtain ⟨hvlen, hvget⟩ := mapM_ok_inv _ _ _ hvs
+    simp only [List.length_range] at hvlen
+    -- to_databox
+    unfold toDatabox at hout
+    by_cases hempty : vs.isEmpty = true
+    · simp [hempty, throw, throwThe, MonadExceptOf.throw] at hout
+    · simp only [hempty, Bool.false_eq_true, if_false, pure, Except.pure, Except.ok.injEq] at hout
+      subst hout
+      have hkeys : (keys (((List.range names.length).zip names).map (fun (qn : Nat × String) =>
+          (qn.2, (⟨f, start, vs.length, rowsOf len (vs.map (fun v => (v[qn.1]?).getD [])), ""⟩ : Ser V))))).Nodup := by
+        have : keys (((List.range names.length).zip names).map (fun (qn : Nat × String) =>
+          (qn.2, (⟨f, start, vs.length, rowsOf len (vs.map (fun v => (v[qn.1]?).getD [])), ""⟩ : Ser V)))) = names := by
+          simp only [keys, List.map_map]
+          exact List.map_snd_zip (l₁ := List.range names.length) (l₂ := names) (by simp)
+        rw [this]; exact hnd
+      rw [IrisVerif.Grid.dictOfList_nodup _ hkeys, List.range_eq_range']
+      obtain ⟨k, hk, hl⟩ := lookup_zip_range names 0
+        (fun q => (⟨f, start, vs.length, rowsOf len (vs.map (fun v => (v[q]?).getD [])), ""⟩ : Ser V)) n hn
+      refine ⟨_, hl, rfl, rfl, hvlen, by simp [rowsOf], ?_⟩
+      intro v hv i hi
+      obtain ⟨recs, hrecs, hfv⟩ := hvget v v (by simp [hv])
+      unfold fromDataboxVariant at hfv
+      have hne : names.isEmpty = false := by
+        cases names with
+        | nil => simp at hn
+        | cons a t => rfl
+      simp only [hne, Bool.false_eq_true, if_false] at hfv
+      obtain ⟨_, hrget⟩ := mapM_ok_inv _ _ _ hfv
+      obtain ⟨rec, hrec, hro⟩ := hrget k n hk
+      refine ⟨rec, hro, ?_⟩
+      have hvl : v < (vs.map (fun w => (w[0 + k]?).getD [])).length := by simp [hvlen, hv]
+      simp only [rowsOf, List.getElem?_map, List.getElem?_range hi, Option.map_some, Option.bind_some]
+      simp [hrecs, hrec]
+
+
+/-- **… and for a selected series without declared fills that cell is the input cell**: period `start + i`, column
+`min v (k − 1)` of the series (NaN outside its range) -- the conversion is lossless on the selected names and span -/
+theorem slate_roundtrip_series (db : Box (Ser V) V) (names : List String) (f : BFreq) (start : Int) (len nvar : Nat)
+    (base : List Nat) (sl : Slate V) (out : List (String × Ser V))
+    (h : fromDatabox db (some names) f start len nvar [] [] false base = .ok sl) (hout : toDatabox sl false = .ok out)
+    (hnd : names.Nodup) (n : String) (hn : n ∈ names) (src : Ser V) (hl : lookup db n = some (.ser src))
+    (hf : src.freq = .U ∨ src.freq = f) (hnv : 1 ≤ src.nv) :
+    ∃ s, lookup out n = some s ∧ s.freq = f ∧ s.start = start ∧ s.nv = nvar ∧ s.rows.length = len ∧
+      ∀ v, v < nvar → ∀ i, i < len →
+        (s.rows[i]?.bind (·[v]?)) = some (((src.rowAt (start + (i : Int)))[min v (src.nv - 1)]?).getD none) := by
+  obtain ⟨s, h1, h2, h3, h4, h5, h6⟩ := slate_roundtrip_cells db names f start len nvar [] [] false base sl out h hout hnd n hn
+  refine ⟨s, h1, h2, h3, h4, h5, ?_⟩
+  intro v hv i hi
+  obtain ⟨rec, hrec, hcell⟩ := h6 v hv i hi
+  rw [record_of_series db f start len base v n src hl hf hnv] at hrec
+  cases hrec
+  rw [hcell]
+  simp [serColumn, hi]
+
+/-- … and NaN on the whole span for a selected name that is not in the databox -/
+theorem slate_roundtrip_absent (db : Box (Ser V) V) (names : List String) (f : BFreq) (start : Int) (len nvar : Nat)
+    (base : List Nat) (sl : Slate V) (out : List (String × Ser V))
+    (h : fromDatabox db (some names) f start len nvar [] [] false base = .ok sl) (hout : toDatabox sl false = .ok out)
+    (hnd : names.Nodup) (n : String) (hn : n ∈ names) (hl : lookup db n = none) :
+    ∃ s, lookup out n = some s ∧ s.rows.length = len ∧
+      ∀ v, v < nvar → ∀ i, i < len → (s.rows[i]?.bind (·[v]?)) = some none := by
+  obtain ⟨s, h1, _, _, _, h5, h6⟩ := slate_roundtrip_cells db names f start len nvar [] [] false base sl out h hout hnd n hn
+  refine ⟨s, h1, h5, ?_⟩
+  intro v hv i hi
+  obtain ⟨rec, hrec, hcell⟩ := h6 v hv i hi
+  rw [record_absent db f start len base v n hl] at hrec
+  cases hrec
+  rw [hcell]
+  simp [hi]
+
+example : (do
+      let sl ← fromDatabox [("a", Item.ser (⟨.Q, 8080, 2, [[some 1, some 2], [none, some 3]], ""⟩ : Ser Nat))]
+        (some ["a", "zz"]) .Q 8079 4 3 [] [] false []
+      let out ← toDatabox sl false
+      pure (lookup out "a", lookup out "zz") : R _)
+    = .ok (some ⟨.Q, 8079, 3, [[none, none, none], [some 1, some 2, some 2], [none, some 3, some 3], [none, none, none]], ""⟩,
+           some ⟨.Q, 8079, 3, [[none, none, none], [none, none, none], [none, none, none], [none, none, none]], ""⟩) := by
+  decide
 
 example : recordOf [("a", Item.ser (⟨.Q, 8080, 2, [[some 1, some 2], [none, some 3]], ""⟩ : Ser Nat))] .Q 8079 4 [] [] false [] 5 "a"
     = .ok [none, some 2, some 3, none] := by decide
